@@ -3,14 +3,4 @@ NOTES = ('All checks: ./check Cnn --tier quick|thorough (cwd /verif).  VERIF_SEE
          '(default /repo).  Exit 0 held / 1 VIOLATION / 2 infrastructure error.  known_findings.json lists recorded defects '
          'and the fix: commits made in /repo.')
 NOT_APPLICABLE = {}
-CLAIMED = {
-    'C05': {
-        'text': 'Lean theorems over the index / byte-range / bit-offset / lazy-offset arithmetic REGENERATED from /repo on every run '
-                '(translator, tie T): frame numbers accepted iff in range and never wrapped; for native 1-bit images of every frame '
-                'size (mod 8) and every frame, in-memory and lazy access both return exactly the packed frame; byte-aligned frames for '
-                '>= 8 bits; batch = map of single.  Encapsulated syntaxes and file I/O are carried by the correspondence/oracle only.',
-        'note': 'Trusted: Lean kernel; translator py2lean.py (itself cross-checked by running the generated definitions against the '
-                'real helpers); pydicom decode as reference; codecs and file parsing not modelled.',
-        'technique': 'Lean 4 proof over definitions translated from source + differential correspondence',
-    },
-}
+CLAIMED = {}   # filled from tools/manifest_entries/Cnn.json
